@@ -39,7 +39,7 @@ def entry_points(c, tx):
     """[(name, object with sighash_* methods)] for a transaction with empty scriptSigs."""
     eps = [("tx", tx)]
     b0 = gen.build_psbt(tx, 0)
-    b2 = gen.build_psbt(tx, 2, explicit_seq=c.rng.random() < 0.7)
+    b2 = gen.build_psbt(tx, 2, explicit_seq=c.rng.random() < 0.7, rng=c.rng)
     eps.append(("psbt-v0", PSBT.parse(b0)))
     eps.append(("psbt-v2", PSBT.parse(b2)))
     # a PSBT object built from the transaction and one that went through embit's own serialiser
